@@ -1,5 +1,5 @@
 ---------------------------- MODULE MC_Factories ----------------------------
 EXTENDS Factories, Instances
-ExtraNodes == { N0("PSrc"), N0("PSrcInj"), N0("PSink"), NK("ProbeP", "a", ""), N0("Touch") }
+ExtraNodes == { NK("ProbeP", "w", "") }
 AllConfigs == FullNodes \cup FeedNodes \cup SliceNodes \cup CtxNodes \cup FailNodes \cup ExtraNodes
 =============================================================================
